@@ -18,7 +18,7 @@ from parso.python import pep8
 from parso.file_io import FileIO, KnownContentFileIO
 from parso.normalizer import RefactoringNormalizer, NormalizerConfig
 
-_loaded_grammars: Dict[str, 'Grammar'] = {}
+_loaded_grammars: Dict[tuple, 'Grammar'] = {}
 
 _NodeT = TypeVar("_NodeT")
 
@@ -268,15 +268,18 @@ def load_grammar(*, version: str = None, path: str = None):
     )
 
     path = os.path.join(os.path.dirname(__file__), file)
+    # The version is part of the key, because it decides how the tokenizer and
+    # the error finder work; a grammar file can be loaded for another version.
+    cache_key = path, version_info.major, version_info.minor
     try:
-        return _loaded_grammars[path]
+        return _loaded_grammars[cache_key]
     except KeyError:
         try:
             with open(path) as f:
                 bnf_text = f.read()
 
             grammar = PythonGrammar(version_info, bnf_text)
-            return _loaded_grammars.setdefault(path, grammar)
+            return _loaded_grammars.setdefault(cache_key, grammar)
         except FileNotFoundError:
             message = "Python version %s.%s is currently not supported." % (
                 version_info.major, version_info.minor
